@@ -206,6 +206,44 @@ def handleC04 (toks : List String) : String :=
         | none => err "value"
       | _, _, _ => err "format"
     | _, _, _, _, _ => err "format"
+  -- rotatel e n box(12) k tol(k rationals) U(9 ints) atoms: rotate WITH the tolerance ladder (rotateLadder)
+  | "rotatel" :: e :: n :: rest =>
+    match e.toNat?, n.toNat?, parseRats? (rest.take 12), ((rest.drop 12).head?).bind String.toNat? with
+    | some e, some n, some bx, some k =>
+      match M3.ofList? (bx.take 9), V3.ofList? (bx.drop 9), parseRats? ((rest.drop 13).take k),
+            (parseInts? ((rest.drop (13 + k)).take 9)).bind M3.ofList?, parseAtoms e n (rest.drop (22 + k)) with
+      | some v, some o, some tols, some U, some atoms =>
+        if tols.length ≠ k then err "format" else
+        match rotateLadder Rat.floor tols ⟨v, o⟩ U atoms with
+        | .ok r => showResult r
+        | .error e => err e
+      | _, _, _, _, _ => err "format"
+    | _, _, _, _ => err "format"
+  -- sizeargs a0 a1 a2 with a = i<n> | p<lo>,<hi> | o: the argument check of supersize (resolveSizes)
+  | "sizeargs" :: a0 :: a1 :: a2 :: [] =>
+    let parse (t : String) : Option SizeArg :=
+      match t.toList with
+      | 'i' :: cs => (String.ofList cs).toInt?.map SizeArg.int
+      | 'p' :: cs =>
+        match (String.ofList cs).splitOn "," with
+        | [a, b] => match a.toInt?, b.toInt? with
+          | some a, some b => some (SizeArg.pair a b)
+          | _, _ => none
+        | _ => none
+      | ['o'] => some SizeArg.other
+      | _ => none
+    match parse a0, parse a1, parse a2 with
+    | some a0, some a1, some a2 =>
+      match resolveSizes a0 a1 a2 with
+      | .ok (sa, sb, sc) => showInts [sa.lo, sa.hi, sb.lo, sb.hi, sc.lo, sc.hi]
+      | .error e => err e
+    | _, _, _ => err "format"
+  -- convuvws setting: multip, the vectors conventional_to_primitive hands to rotate (or `x`), those of primitive_to_conventional
+  | "convuvws" :: setting :: [] =>
+    let sh (m : Option (M3 Int)) : String := match m with
+      | some M => showInts M.toList
+      | none => "x"
+    toString (multip setting) ++ " | " ++ sh (c2pUvws setting) ++ " | " ++ sh (p2cUvws setting)
   | _ => err "op"
 
 def main : IO Unit := runDriver handleC04
